@@ -241,6 +241,8 @@ def judge_events(run, evs, part):
     for i, e in enumerate(evs):
         v = verdicts.get(i + 1)
         case = {'in': {'f': e['f'], 'a': e['a'], 'u': e['u'], 'h': e['h'], 'mode': 'ovr'}, 'obs': e['raw'], 'kind': part}
+        if e.get('before'):
+            case['in']['before'] = e['before']       # evaluated earlier on the same Executor
         if v is not None:
             case['ideal'] = ideal_text(e['f'], v)
         run.judge(case, v is None, clause=f"Trace_C15: {describe(e['f'], e['a'], e['u'], e['h'])} = {e['raw']}, the calendar gives {case.get('ideal')}", part=part)
@@ -281,6 +283,51 @@ def _trace_job(seeds):
         return out
     except Exception as e:
         return {'harness_error': f'{type(e).__name__}: {e}'}
+
+
+def _session_job(seeds):
+    """SEQUENCES on one Executor: the date helpers are functions of their arguments, so an evaluation may not depend on what the same
+    instance evaluated before. Triples that denote different days but share digits (y, m + k, d - 100k) follow one another."""
+    try:
+        ses = probe().session()
+        out = []
+        lo, hi = (datetime.datetime(1901, 1, 1) - EPOCH).days, (datetime.datetime(9990, 1, 1) - EPOCH).days
+        for sd in seeds:
+            rng = random.Random(sd)
+            y, m, d = rng.randint(1905, 9900), rng.randint(-20, 40), rng.randint(-400, 400)
+            triples = [(y, m, d)]
+            for k in rng.sample([-3, -2, -1, 1, 2, 3], 3):
+                triples.append((y, m + k, d - 100 * k))
+                triples.append((y + k, m - 12 * k, d))
+                triples.append((y + k, m, d - 366 * k))
+            triples.append((y, m, d))
+            for ti, (a, b, c) in enumerate(triples):
+                res = ses.eval([(0, 0, 0, a), (0, 1, 0, b), (0, 2, 0, c)], idxs=range(4))
+                for name, r in zip(('DATE', 'YEAR', 'MONTH', 'DAY'), res):
+                    out.append({'f': name, 'a': [a, b, c], 'u': '', 'h': [], 'obs': as_int(*r), 'raw': show(*r), 'before': [list(t) for t in triples[:ti]]})
+            s0 = rng.randint(lo + 40000, hi - 40000)
+            for k in (rng.randint(-30, 30), rng.randint(-30, 30)):
+                for s1 in (s0, s0 + 1, s0):
+                    res = ses.eval([(0, 3, 0, dt(s1)), (0, 4, 0, k), (0, 5, 0, dt(s1)), (0, 6, 0, dt(s1 + abs(k) * 17))], idxs=(4, 5, 6, 7, 8, 9))
+                    for name, r in zip(('EDATE', 'EOMONTH'), res[:2]):
+                        out.append({'f': name, 'a': [s1, k], 'u': '', 'h': [], 'obs': as_int(*r), 'raw': show(*r)})
+                    for u, r in zip(UNITS, res[2:]):
+                        out.append({'f': 'DATEDIF', 'a': [s1, s1 + abs(k) * 17], 'u': u, 'h': [], 'obs': as_int(*r), 'raw': show(*r)})
+        return out
+    except Exception as e:
+        return {'harness_error': f'{type(e).__name__}: {e}'}
+
+
+def sessions(run):
+    n = 160 if run.quick else 4000
+    seeds = [run.seed * 7000003 + i for i in range(n)]
+    outs = core.pmap(_session_job, core.chunks(seeds, 10), chunksize=1)
+    evs = []
+    for o in outs:
+        if isinstance(o, dict):
+            raise core.MachineryError(o['harness_error'])
+        evs += o
+    judge_events(run, evs, 'session')
 
 
 def trace(run):
@@ -326,6 +373,7 @@ def check(run):
                     workers=8, timeout=1800, tag=f'MC_XlCalendar_{a}')
     gen(run)
     trace(run)
+    sessions(run)
     today(run)
 
 
@@ -336,7 +384,12 @@ def replay(run, case):
         return
     p = probe()
     f, a = i['f'], i['a']
-    if f in ('DATE', 'YEAR', 'MONTH', 'DAY'):
+    if f in ('DATE', 'YEAR', 'MONTH', 'DAY') and i.get('before'):
+        ses = p.session()
+        for t in i['before']:
+            ses.eval([(0, 0, 0, t[0]), (0, 1, 0, t[1]), (0, 2, 0, t[2])], idxs=range(4))
+        r = ses.eval([(0, 0, 0, a[0]), (0, 1, 0, a[1]), (0, 2, 0, a[2])], idxs=(('DATE', 'YEAR', 'MONTH', 'DAY').index(f),))[0]
+    elif f in ('DATE', 'YEAR', 'MONTH', 'DAY'):
         r = p.eval([(0, 0, 0, a[0]), (0, 1, 0, a[1]), (0, 2, 0, a[2])], idxs=(('DATE', 'YEAR', 'MONTH', 'DAY').index(f),))[0]
     elif f in ('EDATE', 'EOMONTH'):
         r = p.eval([(0, 3, 0, dt(a[0])), (0, 4, 0, a[1])], idxs=(4 if f == 'EDATE' else 5,))[0]
